@@ -13,6 +13,35 @@ import ast
 INF = 10 ** 6
 INLINE = {"_invoke", "_call", "_deref"}
 
+
+def module_string_sets(tree):
+    """module-level NAME = [..] / (..) / {..} / {k: v} of string constants -> {NAME: [strings]}"""
+    out = {}
+    for st in tree.body:
+        if isinstance(st, ast.Assign) and len(st.targets) == 1 and isinstance(st.targets[0], ast.Name):
+            v = st.value
+            elts = v.keys if isinstance(v, ast.Dict) else v.elts if isinstance(v, (ast.List, ast.Tuple, ast.Set)) else None
+            if elts and all(isinstance(x, ast.Constant) and isinstance(x.value, str) for x in elts):
+                out[st.targets[0].id] = [x.value for x in elts]
+    return out
+
+
+def const_strings(e, consts):
+    """strings an expression denotes: literal list/tuple/set, a module-level table, list(T) / tuple(T) / sorted(T) /
+    set(T) / T.keys(); None when it cannot be told"""
+    if isinstance(e, (ast.List, ast.Tuple, ast.Set)):
+        if all(isinstance(x, ast.Constant) and isinstance(x.value, str) for x in e.elts):
+            return [x.value for x in e.elts]
+        return None
+    if isinstance(e, ast.Name):
+        return consts.get(e.id)
+    if isinstance(e, ast.Call) and isinstance(e.func, ast.Name) and e.func.id in ("list", "tuple", "sorted", "set", "frozenset") \
+            and len(e.args) == 1:
+        return const_strings(e.args[0], consts)
+    if isinstance(e, ast.Call) and isinstance(e.func, ast.Attribute) and e.func.attr == "keys" and not e.args:
+        return const_strings(e.func.value, consts)
+    return None
+
 class S:
     __slots__ = ("c", "known", "excl")
     def __init__(s, c=0, known=None, excl=frozenset()):
@@ -46,7 +75,9 @@ def same(a, b):
     return a[1] == b[1]
 
 class Exec:
-    def __init__(self, funcs, summary):
+    def __init__(self, funcs, summary, consts=None):
+        self.consts = consts or {}
+        self.unknown = []
         self.viol = []
         self.loops_seen = set()
         self.funcs = funcs
@@ -82,6 +113,12 @@ class Exec:
             a = e.func.attr
             if a in ("peekn", "matchIf"):
                 n, tk = tok(e)
+                if n is None:
+                    # token not a literal: a success still means at least one token is there / was consumed
+                    self.unknown.append(" ".join(ast.unparse(e).split()))
+                    yield True, (st.consume(1) if a == "matchIf" else st)
+                    yield False, st
+                    return
                 if tk == "LIST":
                     yield True, st.consume(n)
                     yield False, st
@@ -104,7 +141,14 @@ class Exec:
                 yield False, st
                 return
             if a == "peekOne":
-                toks = [(x.value, e.args[2].value if len(e.args) > 2 else None) for x in e.args[1].elts]
+                strs = const_strings(e.args[1], self.consts) if len(e.args) > 1 else None
+                ttype = e.args[2].value if len(e.args) > 2 and isinstance(e.args[2], ast.Constant) else None
+                if strs is None:
+                    self.unknown.append(" ".join(ast.unparse(e).split()))
+                    yield True, st
+                    yield False, st
+                    return
+                toks = [(x, ttype) for x in strs]
                 excl = st.excl
                 for tk in toks:
                     if st.known is not None and st.known != "EOF":
@@ -267,15 +311,18 @@ class Exec:
 
 
 def analyse(parser_tree):
-    """-> (summary {name: min consumed}, violations [(func name, while node, state text)], loops {(func, lineno)})"""
+    """-> (summary {name: min consumed}, violations [(func name, while node, state text)], loops {(func, lineno)},
+    rounds, look-ahead conditions whose token set could not be resolved)"""
     funcs = {n.name: n for n in parser_tree.body if isinstance(n, ast.FunctionDef)}
+    consts = module_string_sets(parser_tree)
+    unknown = []
     lexer_funcs = [n for n, f in funcs.items() if "lexer" in [a.arg for a in f.args.args]]
     summary = {n: INF for n in funcs}
     rounds = 0
     for rounds in range(1, 40):
         changed = False
         for name in lexer_funcs:
-            ex = Exec(funcs, summary)
+            ex = Exec(funcs, summary, consts)
             outs = ex.run_function(funcs[name], S())
             m = min([o.c for o in outs], default=INF)
             if m != summary[name]:
@@ -289,8 +336,9 @@ def analyse(parser_tree):
     loops = set()
     seen = set()
     for name in lexer_funcs:
-        ex = Exec(funcs, summary)
+        ex = Exec(funcs, summary, consts)
         ex.run_function(funcs[name], S())
+        unknown += ex.unknown
         for w in ast.walk(funcs[name]):
             if isinstance(w, ast.While):
                 loops.add((name, w.lineno, " ".join(ast.unparse(w.test).split())))
@@ -299,4 +347,4 @@ def analyse(parser_tree):
             if k not in seen:
                 seen.add(k)
                 viol.append((name, w, st))
-    return {n: summary[n] for n in lexer_funcs}, viol, loops, rounds
+    return {n: summary[n] for n in lexer_funcs}, viol, loops, rounds, sorted(set(unknown))
